@@ -36,8 +36,25 @@ def _lhs(T, v):
     return v if T == "none" else f"{T}({v})"
 
 
+def _lhs_name(src):
+    """name of the left-hand variable of an equation as written (x, log(x), diff_log(x), ...)"""
+    import re
+    return re.match(r"\s*(?:\w+\()?(\w+)\)?\s*=", src).group(1)
+
+
 def model_source(template, T1, T2):
-    if template == "A":
+    if template in ("As", "Ar"):
+        # template A written in an order in which it cannot be solved sequentially (z, x, w): the model is reordered
+        # after construction, by Sequential.sequentialize() (As) or reorder_equations((1, 0, 2)) (Ar); the w equation
+        # keeps its position while the names it refers to change rows
+        src, eqs = model_source("A", T1, T2)
+        eqs = [eqs[1], eqs[0], eqs[2]]
+        return "!equations\n" + "".join(f"    {e};\n" for e in eqs) + "!parameters\n    a, b\n", eqs
+    if template == "N":     # no lag anywhere in the model: only a plan transform reads the period before the span
+        eqs = [f"{_lhs(T1, 'x')} = a*y + b",
+               f"{_lhs(T2, 'z')} = x*b + 0.25*y",
+               "w === x + z"]
+    elif template == "A":
         eqs = [f"{_lhs(T1, 'x')} = a*x[-1] + b*y + 0.5*x[-2]",
                f"{_lhs(T2, 'z')} = b + 0.1*x + z[-1]",
                "w === x + z[-1]"]
@@ -52,7 +69,7 @@ def model_source(template, T1, T2):
 
 
 def _valid_orders(template):
-    return ("dates_equations", "equations_dates") if template == "A" else ("dates_equations",)
+    return ("dates_equations", "equations_dates") if template in ("A", "As", "Ar", "N") else ("dates_equations",)
 
 
 def _implied(ptrans, lookup_in, lookup_out, name, c):
@@ -74,17 +91,36 @@ def _implied(ptrans, lookup_in, lookup_out, name, c):
     raise ValueError(ptrans)
 
 
+_LAG_PLAN_TRANSFORMS = ("diff", "diff_log", "roc", "pct")
+
+
+def _nlag(template, plan_spec):
+    """number of pre-sample columns the dataslate must have: the model's longest lag or the lag a plan transform reads"""
+    if template != "N":
+        return 2
+    return 1 if any(p[2] in _LAG_PLAN_TRANSFORMS for p in (plan_spec or ())) else 0
+
+
+class ApiRaised(Exception):
+    """the public call under test (Sequential.simulate) raised"""
+
+
 def _build(ir, template, T1, T2, nper, plan_spec, values=None):
     """model, databox, span, plan for one structure; all data concrete floats (lifted later)"""
     src, eqs = model_source(template, T1, T2)
     m = ir.Sequential.from_string(src)
+    if template == "As":
+        m.sequentialize()
+    elif template == "Ar":
+        m.reorder_equations((1, 0, 2))
     pa = 0.3 if values is None else values.get("a", 0.3)
     pb = 1.25 if values is None else values.get("b", 1.25)
     m.assign(a=pa, b=pb)
     start = ir.qq(2020, 1)
     span = start >> (start + nper - 1)
-    first = start - 2          # = first column of the dataslate (max lag 2): databox index j == slate column j
-    ncol = nper + 2
+    nlag = _nlag(template, plan_spec)
+    first = start - nlag       # = first column of the dataslate: databox index j == slate column j
+    ncol = nper + nlag
     db = ir.Databox()
     def series(name, fill, miss=()):
         vals = []
@@ -111,7 +147,7 @@ def _build(ir, template, T1, T2, nper, plan_spec, values=None):
                 kw["when_data"] = True
             plan.exogenize(start + k, name, **kw)
             dname = name if ptrans in (None, "none") else f"{ptrans}_{name}"
-            col = 2 + k
+            col = nlag + k
             if dname not in db:
                 db[dname] = series(dname, 1.125, miss=() if have_data else (col,))
             elif not have_data:
@@ -141,6 +177,10 @@ def _lifted_run(ir, ss, m, db, span, plan, order, values=None):
     ss._SIMULATION_METHOD_DISPATCH["sequential"] = lifted
     try:
         m.simulate(db, span, plan=plan, execution_order=order, when_simulates_nan="silent")
+    except S.SymbolicBranchError:
+        raise
+    except Exception as exc:
+        raise ApiRaised(f"{type(exc).__name__}: {str(exc)[:160]}") from exc
     finally:
         ss._SIMULATION_METHOD_DISPATCH["sequential"] = real
     return cap
@@ -157,7 +197,7 @@ def _obligations(cap, eqs, plan_spec, nper):
             continue       # no data: the point is simulated normally
         exo[(name, k)] = ptrans
     base = cap["base_columns"]
-    lhs_names = ("x", "z", "w")
+    lhs_names = tuple(_lhs_name(e) for e in eqs)
     for bi, c in enumerate(base):
         lo = lambda n, sh, c=c: out[row[n], c + sh]
         for e_i, src in enumerate(eqs):
@@ -262,17 +302,37 @@ def _structures(tier):
             yield ("B", T1, T2, 2)
         yield ("A", "diff", "log", 3)
         yield ("A", "log", "diff_log", 1)
+        for T1, T2 in (("none", "none"), ("log", "none"), ("none", "log")):
+            yield ("N", T1, T2, 2)
+        for T1, T2 in (("none", "none"), ("diff_log", "pct"), ("log", "diff")):
+            yield ("As", T1, T2, 2)
+            yield ("Ar", T1, T2, 2)
     else:
         for T1, T2 in itertools.product(TRANSFORMS, TRANSFORMS):
             for tpl in ("A", "B"):
                 for nper in (1, 2, 3):
                     yield (tpl, T1, T2, nper)
+            for tpl in ("As", "Ar"):
+                yield (tpl, T1, T2, 2)
+            if T1 in ("none", "log") and T2 in ("none", "log"):
+                for nper in (1, 2):
+                    yield ("N", T1, T2, nper)
 
 
-def _plans(tier, T1, T2, nper, idx):
+def _plans(tier, T1, T2, nper, idx, tpl="A"):
     """plan specs: tuples (lhs name, period index, plan transform, when_data, data present)"""
     yield None
     k = nper - 1
+    if tpl == "N":
+        # lag-reading plan transforms in the first simulated period of a model that has no lag of its own
+        lagged = _LAG_PLAN_TRANSFORMS if tier != "quick" else (_LAG_PLAN_TRANSFORMS[idx % 4],)
+        for pt in lagged:
+            yield (("x", 0, pt, False, True),)
+        yield (("z", 0, "pct", True, True), ("x", k, "roc", False, True))
+        yield (("x", k, "log", False, True),)
+        if tier != "quick":
+            yield (("z", 0, "diff", True, False), ("x", 0, "none", False, True))
+        return
     if tier == "quick":
         pt = TRANSFORMS[idx % 6]
         yield (("x", k, pt, False, True),)
@@ -301,7 +361,8 @@ def main(run):
         "plans.transforms.PlanTransform{None,Log,Diff,DiffLog,Roc,Pct}.eval_exogenized", "plans.simulation_plans.SimulationPlan.get_exogenized_point",
         "reached through the public Sequential.from_string / Sequential.simulate",
     ]
-    run.bounds["structures"] = ("two model templates (3 equations: two behavioural with LHS transforms T1,T2 in {none,log,diff,diff_log,roc,pct}, "
+    run.bounds["structures"] = ("model templates A, B and A reordered after construction (written as z, x, w and put in order by "
+                                "Sequential.sequentialize() (As) or reorder_equations((1, 0, 2)) (Ar)) (3 equations: two behavioural with LHS transforms T1,T2 in {none,log,diff,diff_log,roc,pct}, "
                                 "own lags <=2, cross references, 2 parameters; one identity); span 1..3 periods; plans: none / exogenize x or z at one "
                                 "or more dates with each plan transform, when_data with and without data; execution orders that compute every value "
                                 f"before it is read; tier={run.tier} enumerates checks/C17._structures x _plans exhaustively")
@@ -315,7 +376,7 @@ def main(run):
     run.outside += ["models with more than 3 equations or lags > 2", "multiple variants", "user context functions in equations"]
     with npproxy.installed(proxy, ss, em, pt):
         for idx, (tpl, T1, T2, nper) in enumerate(_structures(run.tier)):
-            for pi, plan_spec in enumerate(_plans(run.tier, T1, T2, nper, idx)):
+            for pi, plan_spec in enumerate(_plans(run.tier, T1, T2, nper, idx, tpl)):
                 for order in _valid_orders(tpl):
                     key = f"{tpl}:{T1}/{T2}:n{nper}:plan{pi}:{order}"
                     case = dict(template=tpl, T1=T1, T2=T2, nper=nper, plan=plan_spec, order=order)
@@ -355,6 +416,9 @@ def main(run):
                                     break
                     except S.SymbolicBranchError as exc:
                         run.unknown(key, exc)
+                    except ApiRaised as exc:
+                        ptkey = "none" if plan_spec is None else "+".join(str(p[2]) for p in plan_spec)
+                        run.counterexample(key, f"sequential:{tpl}:simulate_raises:plan={ptkey}", f"Sequential.simulate raises {exc}", dict(case, values={}))
                     except Exception as exc:
                         run.error(key, exc)
     run.extra["exhaustive"] = True
@@ -369,10 +433,14 @@ def replay(case):
         plan_spec = tuple(tuple(p) for p in plan_spec)
     m, db, span, plan, eqs = _build(ir, case["template"], case["T1"], case["T2"], case["nper"], plan_spec, values=vals or None)
     with np.errstate(all="ignore"):
-        out = m.simulate(db, span, plan=plan, execution_order=case["order"], when_simulates_nan="silent")
+        try:
+            out = m.simulate(db, span, plan=plan, execution_order=case["order"], when_simulates_nan="silent")
+        except Exception as exc:
+            return True, f"Sequential.simulate raises {type(exc).__name__}: {str(exc)[:160]}"
     start = span.start
-    first = start - 2
-    ncol = case["nper"] + 2
+    nlag = _nlag(case["template"], plan_spec)
+    first = start - nlag
+    ncol = case["nper"] + nlag
     params = m.get_parameters() if hasattr(m, "get_parameters") else {}
 
     def getter(box):
@@ -385,7 +453,7 @@ def replay(case):
         return get
     gin, gout = getter(db), getter(out)
     names = [n for n in ("x", "y", "z", "w", "res_x", "res_z")]
-    cap = dict(names=tuple(names) + ("a", "b"), base_columns=tuple(range(2, ncol)))
+    cap = dict(names=tuple(names) + ("a", "b"), base_columns=tuple(range(nlag, ncol)))
     # float twin of _obligations
     exo = {}
     for (name, k, ptrans, when_data, have_data) in (plan_spec or ()):
@@ -393,7 +461,7 @@ def replay(case):
             continue
         exo[(name, k)] = ptrans
     worst, msg = 0.0, "all obligations hold"
-    lhs_names = ("x", "z", "w")
+    lhs_names = tuple(_lhs_name(e) for e in eqs)
 
     def cmp(label, a, b):
         nonlocal worst, msg
